@@ -174,6 +174,19 @@ def run(ctx):
         ctx.note('entry points monitored for soundness too', list(mon_iso.ENTRIES))
     finally:
         uninstall()
+    if ctx.shard == 0:
+        # the same texts from four threads at once, through one shared parser object (outcomes compared with the
+        # single-threaded ones, which the monitor judged above)
+        from vf import concurrent as CC
+        import random
+        r2 = random.Random(ctx.seed + 7)
+        pool = []
+        for _ in range(200):
+            text, exp, off = render_iso.render(render_iso.random_datetime(r2), render_iso.random_spec(r2))
+            pool.append(text)
+        pool += ['2014-02-04T12:30:15.224+05:30', '20140204T2400', '2014-W06-2T00:00Z', '2014-035', 'not a date', '2014-02-30']
+        shared = P.isoparser()
+        CC.concurrent_pure(ctx, 'isoparse', ['dateutil.parser.isoparser'], shared.isoparse, pool, 12 if ctx.tier == 'quick' else 200)
 
 
 def reduced(ctx, parser, P, rng, dt):
@@ -283,6 +296,8 @@ def tz_only(ctx, parser, tz, rng):
 
 def floors(agg, tier):
     c, h, out = agg['counters'], agg['hits'], []
+    from vf import concurrent as CC
+    CC.floor(c, 'isoparse', 1500, 1000, out)
     need = {'quick': 60000, 'thorough': 600000}[tier]
     if agg['evaluations'] < need:
         out.append('only %d evaluations (< %d)' % (agg['evaluations'], need))
